@@ -96,6 +96,8 @@ class PositionIndependentGrowInitializer(PopulationInitializer):
         **kwargs,
     ) -> Iterator[Individual]:
         assert isinstance(representation, TreeBasedRepresentation)
+        # an infeasible limit is rejected before anything is created (the grow half has no limit of its own)
+        MaxDepthDecider(random, representation.grammar, max_depth=self.max_depth)
         half = target_size // 2
         yield from self.grow.initialize(problem, representation, random, half)
         yield from self.full.initialize(problem, representation, random, target_size - half)
@@ -120,11 +122,17 @@ class RampedHalfAndHalfInitializer(PopulationInitializer):
         target_size: int,
     ) -> Iterator[Individual]:
         assert isinstance(representation, TreeBasedRepresentation)
-        for _ in range(target_size):
-
+        grammar = representation.grammar
+        MaxDepthDecider(random, grammar, max_depth=self.max_depth)  # rejects an infeasible limit before anything is created
+        min_depth = grammar.get_min_tree_depth()
+        for i in range(target_size):
+            # half at the maximum depth, the other half ramped between the minimum and the maximum; full or grow alike
+            depth = self.max_depth if i % 2 == 0 else random.randint(min_depth, self.max_depth)
+            decider_class = FullDecider if random.random_bool() else MaxDepthDecider
             yield Individual(
                 representation.create_genotype(
                     random,
+                    decider=decider_class(random, grammar, max_depth=depth),
                 ),
                 representation=representation,
             )
